@@ -53,3 +53,98 @@ func c10FetchVerdict(c *Check, rule string) {
 	}
 	c.Floor(rule, "in-fetch verifications", n, 1)
 }
+
+// c10HasherBinding (R10.6): the receiver recomputes a block's CID with the
+// multihash code and length the SENDER put into the prefix; the hasher registered
+// for that code runs the verification and returns the inner ID as the digest,
+// which go-multihash truncates to the sender's length. The hasher must therefore
+// refuse a block whose inner CID is of another block type, or the ID of that
+// other type, truncated, satisfies a request its bytes never populate
+// (SampleID is RowID plus two bytes; SampleID and the V0 range ID are both 12
+// bytes). Decided: hasher.write sets the digest only across a rejecting
+// comparison of the inner CID's multihash type with a field of the hasher, and
+// registerBlock fills that field from the multihash code it registers.
+func c10HasherBinding(c *Check, rule string) {
+	p := c.P
+	w := p.Func("share/shwap/p2p/bitswap", "hasher", "write")
+	reg := p.Func("share/shwap/p2p/bitswap", "", "registerBlock")
+	if w == nil || reg == nil {
+		c.Unresolved(rule, "bitswap hasher.write / registerBlock not found")
+		return
+	}
+	c.SawFunc(w)
+	c.SawFunc(reg)
+	var boundField string
+	cut, gates := failGates(w, func(cond ssa.Value, _ *Slice) bool {
+		x, y, ok := comparisonOperands(cond)
+		if !ok {
+			return false
+		}
+		side := func(v ssa.Value) (isType bool, field string) {
+			sl := backSlice(v, SliceOpt{CallArgs: true})
+			if sl.HasFieldNamed("Prefix", "MhType") {
+				isType = true
+			}
+			for val := range sl.Vals {
+				if fa, ok := val.(*ssa.FieldAddr); ok && ownerName(fa) == "hasher" && fieldOf(fa) != nil {
+					field = fieldOf(fa).Name()
+				}
+			}
+			return
+		}
+		tx, fx := side(x)
+		ty, fy := side(y)
+		if tx && fy != "" && !ty {
+			boundField = fy
+			return true
+		}
+		if ty && fx != "" && !tx {
+			boundField = fx
+			return true
+		}
+		return false
+	})
+	// the digest is set / success returned only across that gate
+	targets := blocksOfReturns(successReturns(w))
+	for _, b := range w.Blocks {
+		for _, ins := range b.Instrs {
+			if st, ok := ins.(*ssa.Store); ok {
+				if fa, ok := st.Addr.(*ssa.FieldAddr); ok && ownerName(fa) == "hasher" && fieldOf(fa) != nil && fieldOf(fa).Name() == "sum" {
+					targets[b] = true
+				}
+			}
+		}
+	}
+	res := gateWalk(p, w, targets, cut, nil)
+	c.Ob(rule, "hasher refuses blocks of another type", len(gates) > 0 && !res.Reached, p.Pos(w.Pos()),
+		"the digest is produced only across a rejecting comparison of the inner CID's multihash type with the code the hasher is registered for", res.Witness...)
+	// the field is filled from the registered code
+	okReg := false
+	if boundField != "" {
+		var codeP *ssa.Parameter
+		for _, pr := range reg.Params {
+			if pr.Name() == "mhcode" {
+				codeP = pr
+			}
+		}
+		for _, f := range append([]*ssa.Function{reg}, Closures(reg)...) {
+			for _, b := range f.Blocks {
+				for _, ins := range b.Instrs {
+					st, ok := ins.(*ssa.Store)
+					if !ok {
+						continue
+					}
+					fa, ok := st.Addr.(*ssa.FieldAddr)
+					if !ok || ownerName(fa) != "hasher" || fieldOf(fa) == nil || fieldOf(fa).Name() != boundField {
+						continue
+					}
+					sl := backSlice(st.Val, SliceOpt{ThroughFreeVars: true})
+					if codeP != nil && (sl.Vals[codeP] || sl.HasParam(reg, "mhcode")) {
+						okReg = true
+					}
+				}
+			}
+		}
+	}
+	c.Ob(rule, "hasher is registered with its own multihash code", okReg, p.Pos(reg.Pos()), "registerBlock stores the multihash code it registers into the hasher field the comparison uses")
+}
